@@ -31,8 +31,8 @@ func verifChanStats(tag, name, host string, clients int, symPaused bool) *Channe
 
 type verifChanSnap struct {
 	depth, mem, backend, inflight, deferred, requeue, timeout, msgs, delivery, zone, region, global int64
-	clientCount, e2e, nodes, clients                                                              int
-	paused                                                                                        bool
+	clientCount, e2e, nodes, clients                                                                int
+	paused                                                                                          bool
 }
 
 func verifSnap(c *ChannelStats) verifChanSnap {
